@@ -52,14 +52,15 @@ ANCHORS = [("rig.machine_control.machine_controller",
              "start_signal": "self.send_signal(\"start\", app_id)"})]
 SHARDS = {"quick": 16, "thorough": 64}
 CLASSES = ["clean", "one_miss", "block_miss", "all_but_last", "always_miss",
-           "prewait", "multi", "random"]
+           "prewait", "multi", "random", "big"]
+KF_BIG = "binary-needs-more-than-255-blocks"
 KF_COUNT = "count-mode-foreign-waiter-masks-miss"
 KF_PRE = "requested-core-already-waiting-masks-miss"
 
 
 def plan(tier):
     n = 600 if tier == "quick" else 16000
-    return [(c, n) for c in CLASSES]
+    return [(c, n if c != "big" else n // 6) for c in CLASSES]
 
 
 def gen(cls, idx, rng, tier):
@@ -71,12 +72,20 @@ def gen(cls, idx, rng, tier):
             dead = []
     chips = [(x, y) for x in range(w) for y in range(h) if (x, y) not in dead]
     buf = rng.choice([16, 64, 128, 256])
+    if cls == "big":
+        buf = rng.choice([16, 16, 64])
     nbin = rng.randint(2, 3) if cls == "multi" else rng.choice([1, 1, 2])
     used = {}
     bins = []
     for b in range(nbin):
         size = rng.choice([4, buf - 4, buf, buf + 4, 2 * buf - 4, 2 * buf,
                            3 * buf + 4, 4 * rng.randint(1, 3 * buf // 4 + 5)])
+        if cls == "big":
+            # many blocks: the block counter and block numbers are 8-bit
+            # fields of the start / data packets
+            nb = rng.choice([127, 128, 129, 200, 254, 255, 255, 256, 257,
+                             300])
+            size = nb * buf - rng.choice([0, 4, buf - 4])
         targets = {}
         for xy in rng.sample(chips, rng.randint(1, min(len(chips), 5))):
             free = [c for c in range(1, 18) if c not in used.get(xy, set())]
@@ -127,6 +136,22 @@ def image_of(b, i):
 
 
 def run(case, ctx):
+    too_many = [b["size"] for b in case["bins"]
+                if -(-b["size"] // case["buf"]) > 255]
+    if not too_many:
+        return run_(case, ctx)
+    try:
+        return run_(case, ctx)
+    except Violation as v:
+        # listed finding: nothing on the wire can announce that many blocks
+        ctx.finding(v.kind, KF_BIG,
+                    "a binary of %d bytes needs %d blocks of %d bytes: %s" %
+                    (too_many[0], -(-too_many[0] // case["buf"]), case["buf"],
+                     str(v)[:200]))
+        ctx.mark_nontrivial()
+
+
+def run_(case, ctx):
     m = M.Machine(case["w"], case["h"], dead=[tuple(d) for d in case["dead"]],
                   buffer_size=case["buf"])
     if (case["buf"] // 4 + case["w"]) % 2:
